@@ -95,6 +95,8 @@ OUT_OF_REACH = [
 
 
 def out_of_reach(cfg, rule):
+    if getattr(cfg, "numeric", False):
+        return "operator instantiated with concrete numeric data (rules branch on the data / synthesise angles numerically)"
     for o, r, why in OUT_OF_REACH:
         if o in cfg.opname and (r is None or r == rule.name):
             return why
@@ -210,7 +212,11 @@ def build(tier, seed):
                          "numpy/autoray structural operations on object arrays"]
     plan.assumptions = ["A-float-as-real", "A-float-constants", "numpy interface path",
                         "is_applicable evaluated on a float twin (abstractification discards parameter values)"]
-    obs, skipped, inapplicable, per_rule = enumerate_rule_obligations(tier, seed, lambda cfg, rule, seed, params: make_obligation(cfg, rule, seed))
+    def mk(cfg, rule, seed, params):
+        if getattr(cfg, "numeric", False) and "SemiAdder" in cfg.opname:
+            return None        # arithmetic templates (nested dynamic work wires) are only used for the resource check C11
+        return make_obligation(cfg, rule, seed)
+    obs, skipped, inapplicable, per_rule = enumerate_rule_obligations(tier, seed, mk)
     for ob in obs:
         plan.add(ob)
         if ob.func:
